@@ -13,7 +13,7 @@ from ..model import dims as M
 
 LEVEL = "exploration"
 EXHAUSTIVE = False
-TECHNIQUE = "runtime monitoring: exhaustive enumeration of single-token spellings (<=4 modifier characters in every order x doc= placement x 34 bases) against the documented-grammar parser, acceptance-vector equality across reorderings/whitespace, totality (nothing but ValueError) incl. non-string specifications; hostile characters in symbolic axes; dim strings spread over nested annotations"
+TECHNIQUE = "runtime monitoring: exhaustive enumeration of single-token spellings (<=4 modifier characters in every order x doc= placement x 34 bases) against the documented-grammar parser, acceptance-vector equality across reorderings/whitespace, totality (nothing but ValueError) incl. non-string specifications; hostile characters in symbolic axes; dim strings spread over nested annotations; a quarter of the shards run with warnings turned into errors"
 LEVEL_TEXT = (
     "Every single-token spelling of the stated space is built (exhaustive for that finite part); within each group of "
     "spellings differing only in modifier order / doc= placement the outcome and the acceptance vector over a probe set "
